@@ -311,6 +311,12 @@ class PusTm(AbstractPusTm):
         )
         if expected_packet_len > len(data):
             raise BytesTooShortError(expected_packet_len, len(data))
+        # The packet has to hold the secondary header including the timestamp and the CRC16.
+        min_packet_len = (
+            SPACE_PACKET_HEADER_SIZE + PusTmSecondaryHeader.MIN_LEN + timestamp_len + 2
+        )
+        if expected_packet_len < min_packet_len:
+            raise BytesTooShortError(min_packet_len, expected_packet_len)
         pus_tm.pus_tm_sec_header = PusTmSecondaryHeader.unpack(
             data=data[SPACE_PACKET_HEADER_SIZE:],
             timestamp_len=timestamp_len,
